@@ -585,7 +585,9 @@ impl Memfs {
         let mut path = PathBuf::new();
         for component in abs.components() {
             path.push(component);
-            self._add(guard, MemfsEntry::opts(&path).mode(mode).build())?;
+            // The kind is given first so that a mode without any permission bit is taken as it is, same as
+            // the real filesystem, rather than being read as no mode at all
+            self._add(guard, MemfsEntry::opts(&path).dir().mode(mode).build())?;
         }
         Ok(())
     }
